@@ -144,16 +144,15 @@ def try_edges_awaited(body, call_bb):
         if not info or info["kind"] != "variant":
             continue
         on = peel_var(info["on"])
-        if on[0] != "try":
-            continue
-        fut = awaited(on[1])
+        # `call(..).await?`, or the same written out: match call(..).await { Ok(v) => v, Err(e) => return Err(e) }
+        fut = awaited(on[1]) if on[0] == "try" else awaited(on)
         if fut is not None and fut[0] == "call" and fut[3] == site:
             sw = bb
             for e in body.succ[bb]:
                 labs = info["arms"].get(e.dst, [])
-                if "Continue" in labs:
+                if "Continue" in labs or "Ok" in labs:
                     ok.add((e.src, e.dst))
-                elif "Break" in labs:
+                elif "Break" in labs or "Err" in labs:
                     err.add((e.src, e.dst))
     return ok, err, sw
 
@@ -352,7 +351,17 @@ def p11_command_application(ctx):
         wok, werr, _ = try_edges_awaited(b, wbb)
         classes = {c for c, d, rb in ret_classes(b, 0, lambda e: e.kind in ("unwind", "ydrop") or (e.src, e.dst) in wok)}
         leak = [c for c in classes if c == "ok"]
-        r.add(f, "every Ok return sent the reply (write_frame awaited, Ok)", bool(wok) and not leak, where(b, wbb))
+        sent = bool(wok) and not leak
+        if not wok:
+            # `connection.write_frame(&reply).await` as the tail expression: what is returned is write_frame's own result
+            rcs = list(ret_classes(b, 0, lambda e: e.kind in ("unwind", "ydrop")))
+
+            def is_reply_result(d):
+                o = ret_origin(b, d) if d is not None else None
+                fut = awaited(o) if o is not None else None
+                return fut is not None and fut[0] == "call" and fut[3] == (b.path, wbb)
+            sent = bool(rcs) and all(c == "err" or is_reply_result(d) for c, d, rb in rcs) and any(is_reply_result(d) for c, d, rb in rcs)
+        r.add(f, "every Ok return sent the reply (write_frame awaited, Ok)", sent, where(b, wbb))
         # reply content
         ro = peel(arg_origin(b, wt, 1))
         resp_local = None
